@@ -223,7 +223,10 @@ func judgeRaw(file, pw []byte, risky bool) (vs []evid.Violation, o outcome) {
 		vs = append(vs, evid.V("harness", "reference refuses the cost of a case the cap admitted: %v", rerr))
 	default:
 		if cipherFindingOpen {
-			if k2, err2 := v3ref.ReadOpts(file, pw, v3ref.Options{Limits: &refLimits, IgnoreCipherName: true}); err2 == nil && bytes.Equal(k2.Secret, key) {
+			// open known finding: no verdict where the cipher name is the strict reader's only objection
+			// (with the name ignored it derives the same key, or the file lies in the unspecified c <= 0 region)
+			k2, err2 := v3ref.ReadOpts(file, pw, v3ref.Options{Limits: &refLimits, IgnoreCipherName: true})
+			if (err2 == nil && bytes.Equal(k2.Secret, key)) || errors.Is(err2, v3ref.ErrUnspecified) {
 				o.cipherOnly = true
 				return vs, o
 			}
